@@ -516,7 +516,7 @@ lyb_parse_metadata(struct lyd_lyb_ctx *lybctx, const struct lysc_node *sparent, 
             lyb_skip_string(sizeof(uint16_t), lybctx->lybctx);
 
             /* skip meta value */
-            lyb_skip_string(sizeof(uint16_t), lybctx->lybctx);
+            lyb_skip_string(sizeof(uint64_t), lybctx->lybctx);
             continue;
         }
 
